@@ -1,5 +1,15 @@
 (* C05 over the language chains, continued: RemoveIntersections (Java) and InlineObjectsWithTypes (PHP),
-   the two passes that REMOVE objects. *)
+   the two passes that REMOVE objects.
+   WHAT IS HERE
+   - shape_rm / refs_kept_rm / entries_kept_rm: a pass that removes the objects named by `rm pkg name`;
+   - RemoveIntersections: ri_refs_safe (no reference left after the first loop, and no entry point, names a
+     collapsed object - by name only), remove_intersections_keeps, remove_intersections_keeps_mappings,
+     java_chain_keeps_references, java_chain_keeps_resolving, ri_refs_safe_nonvacuous;
+   - InlineObjectsWithTypes: vis_refs / hid_refs, Section IowtTy (iowt_ty_good, iowt_ty_same), the traversal as
+     named steps (iowt_visit_eq), Section IowtVisit (the views of inlined objects never change: iinv; idesc: what an
+     object of the result is), iowt_refs_safe (the order-independent case), inline_objects_keeps,
+     php_chain_keeps_references, iowt_refs_safe_nonvacuous;
+   - typescript_chain_keeps_resolving; go/java/php_chain_references_nonvacuous. *)
 From Coq Require Import List String Bool Ascii Lia.
 From Cog Require Import Model.IR Model.Names Model.Passes Model.PassesChain Model.Process Model.NF Model.Refs
      Proofs.TyInd Proofs.PassLemmas Proofs.ChainLemmas Proofs.ChainNFProofs Proofs.ChainPresProofs
@@ -687,8 +697,13 @@ Section IowtVisit.
     unfold is_org. apply existsb_exists. exists (key, (i, k)). split; [assumption|]. simpl. rewrite Nat.eqb_refl, seqb_refl. reflexivity.
   Qed.
 
+  (* what an object of the result is: an object of the input, rewritten under some view that agrees with the input on
+     the inlined objects *)
+  Definition idesc (s : schema) (k0 : string) (o' : object) : Prop :=
+    exists k o cur i, In (k, o) (s_objects s) /\ iinv cur /\ nth_error ss i = Some s /\
+      o' = set_otype o (iowt_ty (iowt_lookup inl cur (Some (i, k))) (fun x => x) (o_type o)) /\ k0 = o_name o.
   Definition pobj (s : schema) (objs : list (string * object)) : Prop :=
-    forall k0 o', In (k0, o') objs -> exists k o t', In (k, o) (s_objects s) /\ o' = set_otype o t' /\ k0 = o_name o /\ iowt_post igood t'.
+    forall k0 o', In (k0, o') objs -> idesc s k0 o'.
 
   Lemma obj_fold i s : nth_error ss i = Some s -> forall l, (forall ko, In ko l -> In ko (s_objects s)) ->
     forall objs cur, iinv cur -> pobj s objs ->
@@ -700,8 +715,7 @@ Section IowtVisit.
     assert (pobj s (fst (iowt_obj_step inl i (objs, cur) (k, o)))) as Hp1.
     { unfold iowt_obj_step. cbn [fst]. intros k0 o' Hin. unfold add_object in Hin. apply objs_set_in_kv in Hin.
       destruct Hin as [Hin|[E1 E2]]; [apply Hp; exact Hin|].
-      exists k, o. eexists. split; [exact Hko|split; [exact E2|split; [exact E1|]]].
-      exact (proj1 (obj_result cur i s k o Hinv Hn Hko)). }
+      exists k, o, cur, i. split; [exact Hko|split; [exact Hinv|split; [exact Hn|split; [exact E2|exact E1]]]]. }
     destruct (iowt_obj_step inl i (objs, cur) (k, o)) as [objs1 cur1]. apply IH; [intros ko Hin; apply Hl; right; exact Hin|assumption|assumption].
   Qed.
 
@@ -724,7 +738,7 @@ Section IowtVisit.
     s_pkg s' = s_pkg s /\ s_entry s' = s_entry s /\
     (forall n, (exists ko, In ko (s_objects s) /\ o_name (snd ko) = n) -> objs_has (s_objects s') n = true) /\
     (forall r, In r (schema_refs s') -> igood r) /\
-    (forall k0 o', In (k0, o') (s_objects s') -> exists k o t', In (k, o) (s_objects s) /\ o' = set_otype o t' /\ k0 = o_name o).
+    (forall k0 o', In (k0, o') (s_objects s') -> idesc s k0 o').
 
   Lemma sch_fold : forall l pre out cur, ss = pre ++ l -> iinv cur -> Forall2 irel pre out ->
     Forall2 irel ss (fst (fold_left (iowt_sch_step inl) l (out, (cur, List.length pre)))).
@@ -753,9 +767,10 @@ Section IowtVisit.
              apply all_refs_vis_hid. left. exact Hr1.
           -- split; [|exact (HHe s Hs r1 Hr1)]. unfold ibase. apply in_flat_map. exists s. split; [exact Hs|]. unfold schema_refs.
              apply in_or_app. left. apply all_refs_vis_hid. right. exact Hr1.
-      + apply in_flat_map in Hr0. destruct Hr0 as [[k0 o'] [Hin Hr0]]. destruct (Hp1 k0 o' Hin) as [k [o [t' [_ [E [_ Hpost]]]]]].
-        subst o'. simpl in Hr0. apply Hpost. exact Hr0.
-    - intros k0 o' Hin. cbn [s_objects] in Hin. destruct (Hp1 k0 o' Hin) as [k [o [t' [A [B [C _]]]]]]. exists k, o, t'. repeat split; assumption.
+      + apply in_flat_map in Hr0. destruct Hr0 as [[k0 o'] [Hin Hr0]].
+        destruct (Hp1 k0 o' Hin) as [k [o [c [i [Hko [Hc [Hni [E _]]]]]]]].
+        subst o'. simpl in Hr0. apply (proj1 (obj_result c i s k o Hc Hni Hko)). exact Hr0.
+    - intros k0 o' Hin. cbn [s_objects] in Hin. exact (Hp1 k0 o' Hin).
   Qed.
 
   Lemma iowt_visit_rel : Forall2 irel ss (iowt_visit inl ss).
@@ -840,7 +855,7 @@ Proof.
     assert (objs_has (s_objects s') n = true) as Hn' by (apply Hhas; exists (n, o); split; [exact Eg|symmetry; exact Ename]).
     unfold objs_has in Hn'. destruct (objs_get (s_objects s') n) as [o'|] eqn:Eg'; [|discriminate].
     rewrite (objs_get_filter _ _ _ _ Eg'); [reflexivity|]. cbn [snd].
-    destruct (Hobj n o' (objs_get_in _ _ _ Eg')) as [k0 [o0 [t' [Hin0 [Eo' En]]]]]. subst o'.
+    destruct (Hobj n o' (objs_get_in _ _ _ Eg')) as [k0 [o0 [c0 [i0 [Hin0 [_ [_ [Eo' En]]]]]]]]. subst o'.
     destruct (HW s (k0, o0) Hs Hin0) as [_ Epkg]. simpl in Epkg.
     pose proof (proj2 (proj2 (proj2 (proj2 (HS s Hs)))) (k0, o0) Hin0) as Eself. simpl in Eself.
     unfold self_str. cbn [o_selfpkg o_selfname set_otype]. rewrite Epkg, Eself, <- En. unfold rm in Hrm. rewrite Hrm. reflexivity. }
@@ -893,3 +908,45 @@ Proof.
     eexists; repeat split; vm_compute; try reflexivity.
 Qed.
 Local Close Scope string_scope.
+
+(* =====================================================================================
+   the TypeScript chain, and non-vacuity of the chain theorems of this file and of ChainRefsProofs.v
+   ===================================================================================== *)
+Theorem typescript_chain_keeps_resolving ss out :
+  wf_refs_input ss -> resolves ss = true -> process chain_typescript ss = Ok out -> resolves out = true.
+Proof.
+  intros [W U] Hres H. apply resolves_iff in Hres. destruct Hres as [R [E M]].
+  unfold chain_typescript in H. simpl in H. inversion H; subst. clear H.
+  destruct (rnev_keeps _ W U R E) as [_ [_ [_ [R1 E1]]]]. apply resolves_iff.
+  split; [exact R1|split; [exact E1|apply rnev_keeps_mappings; exact M]].
+Qed.
+
+Ltac wf_single :=
+  split; [intros s ko [<-|[]] Hko; simpl in Hko; repeat (destruct Hko as [<-|Hko]; [split; reflexivity|]); destruct Hko
+         |unfold pkgs_unique; simpl; constructor; [intros []|constructor]].
+
+Example go_chain_references_nonvacuous :
+  wf_refs_input w_tame /\ no_mappings w_tame = true /\ resolves w_tame = true /\
+  exists out, process chain_go w_tame = Ok out /\ resolves out = true /\
+              List.length (objects_of w_tame) < List.length (objects_of out).
+Proof.
+  split; [wf_single|]. split; [vm_compute; reflexivity|]. split; [vm_compute; reflexivity|].
+  eexists. split; [vm_compute; reflexivity|]. split; [vm_compute; reflexivity|vm_compute; lia].
+Qed.
+Example java_chain_references_nonvacuous :
+  wf_refs_input w_alias_unreferred /\ tame_java_refs w_alias_unreferred = true /\ no_mappings w_alias_unreferred = true /\
+  resolves w_alias_unreferred = true /\
+  exists mid out, process (removelast chain_java) w_alias_unreferred = Ok mid /\ process chain_java w_alias_unreferred = Ok out /\
+                  resolves out = true /\ List.length (objects_of out) < List.length (objects_of mid).
+Proof.
+  split; [wf_single|]. split; [vm_compute; reflexivity|]. split; [vm_compute; reflexivity|]. split; [vm_compute; reflexivity|].
+  eexists. eexists. split; [vm_compute; reflexivity|]. split; [vm_compute; reflexivity|]. split; [vm_compute; reflexivity|vm_compute; lia].
+Qed.
+Example php_chain_references_nonvacuous :
+  wf_refs_input w_inline_closed /\ tame_php_refs w_inline_closed = true /\ resolves w_inline_closed = true /\
+  exists out, process chain_php w_inline_closed = Ok out /\ resolves out = true /\
+              List.length (objects_of out) < List.length (objects_of w_inline_closed).
+Proof.
+  split; [wf_single|]. split; [vm_compute; reflexivity|]. split; [vm_compute; reflexivity|].
+  eexists. split; [vm_compute; reflexivity|]. split; [vm_compute; reflexivity|vm_compute; lia].
+Qed.
